@@ -103,4 +103,8 @@ pub mod v5 {
     pub(crate) mod pubgate {
         include!("../../weave/gen_v5_pubgate.rs");
     }
+    #[cfg(kani)]
+    pub(crate) mod client_pubgate {
+        include!("../../weave/gen_v5_client_pubgate.rs");
+    }
 }
